@@ -15,6 +15,7 @@ delivered).
                              `C05_runahead_concmap_tight`: attained (c = 1: 4 pulled, none delivered).
 -/
 import ShpanVerif.Proofs.ConcMapInv
+import ShpanVerif.Proofs.ConcConsumeInv
 import ShpanVerif.Proofs.BufferedInv
 
 namespace ShpanVerif.Props.C05Async
@@ -144,5 +145,51 @@ theorem C05_runahead_concmap_tight :
             .pTop, .pEmitVal, .pSend, .pTop, .pEmitVal]) (by decide)
 
 end concmap
+
+/-! ### concurrent consume -/
+section consume
+
+def handC : ConcConsume.PPc → Nat
+  | .have _ => 1
+  | _ => 0
+
+/-- while nothing was cancelled and no failure was injected, every pulled element is in the producer's hand, in the item
+    channel, or was handed to the callback -/
+def AccountC (s : ConcConsume.St) : Prop :=
+  s.wctx = false → s.faulted = false → s.cursor = handC s.prod + s.ch.length + s.called.length
+
+set_option maxHeartbeats 4000000 in
+theorem accountC_step {cfg : ConcConsume.Cfg} {s s' : ConcConsume.St} {l : ConcConsume.Label}
+    (hb : ConcConsume.Basic cfg s) (h : AccountC s) (hs : ConcConsume.step cfg s l = some s') : AccountC s' := by
+  unfold AccountC at *
+  obtain ⟨b1, b2, b3, b4, b5, b6, b7, b8, b9, b10, b11, b12, b13, b14, b15⟩ := hb
+  cases l <;> simp only [ConcConsume.step] at hs <;> (repeat' split at hs) <;> (try (simp at hs)) <;> (try (subst hs)) <;>
+    simp_all [handC, ConcConsume.St.wctx, List.length_erase_of_mem] <;> grind [List.length_pos_of_mem]
+
+theorem accountC {cfg : ConcConsume.Cfg} {s : ConcConsume.St} (hr : Reachable (ConcConsume.sys cfg) s) : AccountC s := by
+  have : ConcConsume.Basic cfg s ∧ AccountC s := by
+    refine invariant (sys := ConcConsume.sys cfg) (P := fun s => ConcConsume.Basic cfg s ∧ AccountC s) ?_ ?_ s hr
+    · exact ⟨ConcConsume.basic_init cfg, by simp [AccountC, ConcConsume.sys, ConcConsume.init, handC]⟩
+    · intro s l s' h hs
+      exact ⟨ConcConsume.basic_step h.1 hs, accountC_step h.1 h.2 hs⟩
+  exact this.2
+
+/-- **The concurrent consume terminal never reads ahead of its callbacks by more than c + 1** (histories without failure
+    or cancellation): at most `c` elements wait in the item channel and one is in the producer's hand. -/
+theorem C05_runahead_consume {cfg : ConcConsume.Cfg} {s : ConcConsume.St} (hr : Reachable (ConcConsume.sys cfg) s)
+    (hw : s.wctx = false) (hf : s.faulted = false) : s.cursor ≤ s.called.length + (cfg.c + 1) := by
+  have h := accountC hr hw hf
+  have hb := ConcConsume.basic hr
+  have h1 := hb.cap
+  have h2 : handC s.prod ≤ 1 := by cases s.prod <;> simp [handC]
+  omega
+
+/-- The bound is attained (c = 1): three elements pulled, one handed to a callback. -/
+theorem C05_runahead_consume_tight :
+    ∃ s, Reachable (ConcConsume.sys { n := 3, c := 1 }) s ∧ (s.cursor == 3 && s.called.length == 1 && !s.wctx) = true :=
+  checkRun_reachable
+    (ls := [.pCheck, .pEmitVal, .pSend, .wRecv, .pCheck, .pEmitVal, .pSend, .pCheck, .pEmitVal]) (by decide)
+
+end consume
 
 end ShpanVerif.Props.C05Async
